@@ -9,6 +9,7 @@ import (
 	"go/types"
 	"sort"
 	"strings"
+	"sync"
 
 	"golang.org/x/tools/go/ssa"
 )
@@ -1404,8 +1405,81 @@ func (ex *Exec) bumpAlloc(st *State) T {
 }
 
 func (ex *Exec) havocAll(st *State) {
+	// Escaping locals that are never assigned after the entry block of their function (a parameter captured by a
+	// function literal, typically) live in a box that nothing can write: no pointer to it exists outside the
+	// function literals that capture it, and those only read it. "May modify anything" does not reach such a box.
+	type keep struct {
+		hn, hs string
+		ref, v T
+	}
+	var keeps []keep
+	for _, fr := range st.frames {
+		for v, pv := range fr.vals {
+			a, ok := v.(*ssa.Alloc)
+			if !ok || !a.Heap || !immutableBox(a) {
+				continue
+			}
+			p, ok := pv.(*Ptr)
+			if !ok || p.Kind != PBox || len(p.Path) != 0 {
+				continue
+			}
+			hn, hs := ex.c.BoxHeap(ex.c.SortOf(p.Base))
+			keeps = append(keeps, keep{hn, hs, p.Ref, ex.define(st, "kept_"+a.Comment, Select(st.Heap(hn, hs), p.Ref))})
+		}
+	}
+	sort.Slice(keeps, func(i, j int) bool { return keeps[i].ref.S < keeps[j].ref.S })
 	st.epoch = ex.nextEpoch()
 	st.heap = map[string]T{}
+	for _, k := range keeps {
+		ex.setHeap(st, k.hn, Store(st.Heap(k.hn, k.hs), k.ref, k.v))
+	}
+}
+
+var immutableBoxMemo = map[*ssa.Alloc]bool{}
+var immutableBoxMu sync.Mutex
+
+// immutableBox: every store to the box is in the entry block of its function, and the function literals that capture
+// it only load from it (no store, no address taken further).
+func immutableBox(a *ssa.Alloc) bool {
+	immutableBoxMu.Lock()
+	defer immutableBoxMu.Unlock()
+	if r, ok := immutableBoxMemo[a]; ok {
+		return r
+	}
+	var onlyLoads func(v ssa.Value, entryStoresOK bool, depth int) bool
+	onlyLoads = func(v ssa.Value, entryStoresOK bool, depth int) bool {
+		if depth > 4 || v.Referrers() == nil {
+			return false
+		}
+		for _, r := range *v.Referrers() {
+			switch x := r.(type) {
+			case *ssa.DebugRef:
+			case *ssa.UnOp:
+				if x.Op != token.MUL {
+					return false
+				}
+			case *ssa.Store:
+				if x.Addr != v || x.Val == v || !entryStoresOK || x.Block() != x.Parent().Blocks[0] {
+					return false
+				}
+			case *ssa.MakeClosure:
+				fn := x.Fn.(*ssa.Function)
+				for i, b := range x.Bindings {
+					if b == v {
+						if !onlyLoads(fn.FreeVars[i], false, depth+1) {
+							return false
+						}
+					}
+				}
+			default:
+				return false
+			}
+		}
+		return true
+	}
+	r := onlyLoads(a, true, 0)
+	immutableBoxMemo[a] = r
+	return r
 }
 
 var globalEpoch int
